@@ -354,6 +354,17 @@ def _(torch, a, b):
     return h2 - e ** 2, torch.vdot(a, b), (a * b.conj()).sum(), h2.dtype
 
 
+@case("abs: torch.abs(z)**2, python abs(), abs of reals (overlap / _normalize idioms)", {"z": ((3,), C), "x": ((3,), F)}, tol=1e-12)
+def _(torch, z, x):
+    return torch.abs(z) ** 2, abs(z.sum()) ** 2, torch.abs(torch.vdot(z, z)) ** 2, (x * x).abs()
+
+
+@case("abs(norm**4 - 1) > tol on concrete values (_normalize idiom)", {"x": ((3,), C)}, symbolic=False, tol=1e-12)
+def _(torch, x):
+    n = torch.linalg.vector_norm(x)
+    return bool(abs(n ** 4 - 1.0) > 1e-12), x / n if False else x
+
+
 # ------------------------------------------------------------------------------------------
 # input generation and result normalisation
 # ------------------------------------------------------------------------------------------
@@ -523,6 +534,54 @@ def agree(a, b, tol):
     return diffs
 
 
+def poly_selftest(seed, rounds=300):
+    """random ring identities of poly.Poly checked numerically: evalf is a ring homomorphism that
+    respects I^2=-1, s^2=1-c^2, r^2=P, conj/real/imag -- guards the normal form itself"""
+    import cmath
+    import poly
+    rng = random.Random(f"poly-{seed}")
+    fails = []
+    n = 0
+    for k in range(rounds):
+        poly.reset_registry()
+        xs = [poly.var(f"x{i}") for i in range(3)]
+        phi = poly.angle("phi")
+        c, s_ = poly.p_cos(phi), poly.p_sin(phi)
+        atoms = xs + [c, s_, poly.I, poly.const(rng.randint(-3, 3)), poly.const(rng.choice([0.5, -1.5, 0.25]))]
+        ang = rng.uniform(0.2, 3.0)
+        env = {f"x{i}": rng.choice([-2.5, -1.0, 0.5, 1.5, 3.0]) for i in range(3)}
+        env.update({"phi": ang, "cos(phi)": math.cos(ang), "sin(phi)": math.sin(ang)})
+
+        def rand(depth):
+            if depth == 0:
+                return rng.choice(atoms)
+            a, b = rand(depth - 1), rand(depth - 1)
+            return rng.choice([lambda: a + b, lambda: a - b, lambda: a * b, lambda: a * b + a, lambda: -a])()
+        p, q = rand(3), rand(3)
+        P, Q = p.evalf(env), q.evalf(env)
+        root_arg = p.real() * p.real() + 1
+        r = poly.p_sqrt(root_arg)
+        checks = [((p * q).evalf(env), P * Q), ((p + q).evalf(env), P + Q), ((p - q).evalf(env), P - Q),
+                  (p.conj().evalf(env), P.conjugate()), (p.real().evalf(env), P.real), (p.imag().evalf(env), P.imag),
+                  ((p ** 3).evalf(env), P ** 3), ((p / 4).evalf(env), P / 4),
+                  ((r * r * q).evalf(env), root_arg.evalf(env) * Q), ((r * q).evalf(env), cmath.sqrt(root_arg.evalf(env)) * Q),
+                  ((poly.p_exp(poly.I * phi) * poly.p_exp(-1 * poly.I * phi)).evalf(env), 1.0),
+                  ((s_ * s_ + c * c).evalf(env), 1.0)]
+        # canonical form: algebraically equal expressions have identical dicts
+        same = [((p + q) * (p - q)).same(p * p - q * q), (p * (q + 1)).same(p * q + p), ((s_ * s_ + c * c)).same(1),
+                ((r * r)).same(root_arg), (p - p).is_zero(), ((p * q) * p).same(p * (q * p))]
+        for a, b in checks:
+            n += 1
+            if abs(a - b) > 1e-8 * (1 + abs(b)):
+                fails.append(f"round {k}: {a} vs {b} for p={p} q={q}"[:300])
+        for ok in same:
+            n += 1
+            if not ok:
+                fails.append(f"round {k}: canonical-form identity failed for p={p} q={q}"[:300])
+    poly.reset_registry()
+    return n, fails
+
+
 def main():
     seed = 0
     if "--seed" in sys.argv:
@@ -539,6 +598,7 @@ def main():
     summary = dict(seed=seed, cases=len(CASES), rounds=0, exact_compared=0, symbolic_compared=0, disagreements=[],
                    unsupported=[])
     import tempfile
+    torch.config.op_log = set()
     for rnd in range(3):
         concrete = {c["name"]: gen_inputs(c, seed * 1000 + rnd) for c in CASES}
         fd, path = tempfile.mkstemp(suffix=".json")
@@ -570,7 +630,12 @@ def main():
                 summary["exact_compared" if label == "exact" else "symbolic_compared"] += 1
                 if d:
                     summary["disagreements"].append(dict(case=n, mode=label, diffs=d[:4]))
+    n_poly, poly_fails = poly_selftest(seed)
+    summary["poly_identities_checked"] = n_poly
+    for f in poly_fails[:5]:
+        summary["disagreements"].append(dict(case="poly ring identities", mode="poly", diffs=[f]))
     summary["unsupported"] = sorted(set(summary["unsupported"]))
+    summary["ops_covered"] = sorted(torch.config.op_log)
     print(json.dumps(summary))
     return 0 if not summary["disagreements"] and not summary.get("error") else 1
 
